@@ -144,6 +144,73 @@ func c38SetPhase(r *core.Report, p *core.Prog, sp, restart *ssa.Function, phases
 			}
 		}
 	}
+	// the phase function may be run by a helper given pn.Phase: the helper's result must
+	// then be nil or the error of phaseFuncs[<that parameter>] and nothing else
+	if len(phaseCalls) == 0 {
+		for _, b := range sp.Blocks {
+			for _, in := range b.Instrs {
+				c, ok := in.(*ssa.Call)
+				if !ok {
+					continue
+				}
+				h := c.Call.StaticCallee()
+				if h == nil || h.Pkg == nil || h.Pkg.Pkg.Path() != pkgMinerSC || h.Blocks == nil {
+					continue
+				}
+				pi := -1
+				for i, a := range c.Call.Args {
+					if isPn(a, "Phase") {
+						pi = i
+					}
+				}
+				if pi < 0 || pi >= len(h.Params) {
+					continue
+				}
+				var inner []*ssa.Call
+				for _, hb := range h.Blocks {
+					for _, hin := range hb.Instrs {
+						hc, ok := hin.(*ssa.Call)
+						if !ok || hc.Call.IsInvoke() || hc.Call.StaticCallee() != nil {
+							continue
+						}
+						v := hc.Call.Value
+						if e, ok := v.(*ssa.Extract); ok {
+							v = e.Tuple
+						}
+						if lk, ok := v.(*ssa.Lookup); ok && lk.Index == ssa.Value(h.Params[pi]) {
+							if ld, ok := lk.X.(*ssa.UnOp); ok {
+								if g, ok := ld.X.(*ssa.Global); ok && g.Name() == "phaseFuncs" {
+									inner = append(inner, hc)
+								}
+							}
+						}
+					}
+				}
+				if len(inner) == 0 {
+					continue
+				}
+				pure := true
+				for _, ret := range core.Returns(h) {
+					if ret.Block() == h.Recover {
+						continue
+					}
+					v := core.ResultValue(ret, len(ret.Results)-1)
+					isInner := false
+					for _, ic := range inner {
+						if v == ssa.Value(ic) {
+							isInner = true
+						}
+					}
+					if !isInner && !core.IsNilConst(v) {
+						pure = false
+					}
+				}
+				if pure {
+					phaseCalls = append(phaseCalls, c)
+				}
+			}
+		}
+	}
 	if !r.Check(moveCall != nil && len(phaseCalls) >= 1, "C38.advance", "setPhaseNode:dispatch-by-current-phase", p.Pos(sp.Pos()), fmt.Sprintf("move function = moveFunctions[pn.Phase] (found %v), phase function = phaseFuncs[pn.Phase] (%d calls)", moveCall != nil, len(phaseCalls))) {
 		return
 	}
@@ -156,16 +223,50 @@ func c38SetPhase(r *core.Report, p *core.Prog, sp, restart *ssa.Function, phases
 		return false
 	}
 	// stores to Phase / StartRound
-	ws := append(core.FieldWrites([]*ssa.Function{sp}, phaseF), core.FieldWrites([]*ssa.Function{sp}, startF)...)
+	type advStore struct {
+		w    core.FieldWrite
+		gblk *ssa.BasicBlock // where the advance guards must hold (in setPhaseNode)
+		base ssa.Value       // the phase node in the function that holds the store
+	}
+	var adv []advStore
+	for _, w := range append(core.FieldWrites([]*ssa.Function{sp}, phaseF), core.FieldWrites([]*ssa.Function{sp}, startF)...) {
+		adv = append(adv, advStore{w, w.Instr.Block(), ssa.Value(pn)})
+	}
+	// stores made by a helper that setPhaseNode calls on the phase node
+	for _, b := range sp.Blocks {
+		for _, in := range b.Instrs {
+			c, ok := in.(*ssa.Call)
+			if !ok {
+				continue
+			}
+			h := c.Call.StaticCallee()
+			if h == nil || h.Pkg == nil || h.Pkg.Pkg.Path() != pkgMinerSC || h.Blocks == nil || h == restart {
+				continue
+			}
+			for i, a := range c.Call.Args {
+				if a != ssa.Value(pn) || i >= len(h.Params) {
+					continue
+				}
+				for _, w := range append(core.FieldWrites([]*ssa.Function{h}, phaseF), core.FieldWrites([]*ssa.Function{h}, startF)...) {
+					if w.Addr != nil && w.Addr.X == ssa.Value(h.Params[i]) {
+						adv = append(adv, advStore{w, b, ssa.Value(h.Params[i])})
+					}
+				}
+			}
+		}
+	}
 	nAdv := 0
-	for _, w := range ws {
-		if w.Kind != "store" || w.Addr == nil || w.Addr.X != ssa.Value(pn) {
+	for _, as := range adv {
+		w := as.w
+		if w.Kind != "store" || w.Addr == nil || w.Addr.X != as.base {
 			r.Fail("C38.advance", "setPhaseNode:phase-node-write", posOf(p, w.Instr), "a write to Phase/StartRound that is not a plain store on the phase node argument")
 			continue
 		}
 		nAdv++
 		fname := core.FieldOf(w.Addr).Name()
-		blk := w.Instr.Block()
+		blk := as.gblk
+		vblk := w.Instr.Block()
+		isPnV := func(v ssa.Value, f string) bool { return isFieldLoadOn(v, as.base, f) }
 		// (1) move condition
 		condOK := false
 		for _, f := range core.FactsAt(blk) {
@@ -261,8 +362,8 @@ func c38SetPhase(r *core.Report, p *core.Prog, sp, restart *ssa.Function, phases
 			okV := false
 			if k, ok := core.ConstInt(w.Val); ok && k == 0 {
 				// under Phase >= len(PhaseRounds)-1
-				for _, f := range CmpFacts(blk) {
-					if (f.Op == token.GEQ || f.Op == token.EQL) && isPn(f.X, "Phase") {
+				for _, f := range CmpFacts(vblk) {
+					if (f.Op == token.GEQ || f.Op == token.EQL) && isPnV(f.X, "Phase") {
 						fl, leaves := FlowLoads(f.Y)
 						_ = fl
 						hasLen, hasTab := false, false
@@ -281,11 +382,11 @@ func c38SetPhase(r *core.Report, p *core.Prog, sp, restart *ssa.Function, phases
 						}
 					}
 				}
-			} else if bo, ok := w.Val.(*ssa.BinOp); ok && bo.Op == token.ADD && isPn(bo.X, "Phase") {
+			} else if bo, ok := w.Val.(*ssa.BinOp); ok && bo.Op == token.ADD && isPnV(bo.X, "Phase") {
 				if k, ok := core.ConstInt(bo.Y); ok && k == 1 {
 					// under !(Phase >= last)
-					for _, f := range CmpFacts(blk) {
-						if f.Op == token.LSS && isPn(f.X, "Phase") {
+					for _, f := range CmpFacts(vblk) {
+						if f.Op == token.LSS && isPnV(f.X, "Phase") {
 							okV = true
 						}
 					}
@@ -293,7 +394,7 @@ func c38SetPhase(r *core.Report, p *core.Prog, sp, restart *ssa.Function, phases
 			}
 			r.Check(okV, "C38.advance", fmt.Sprintf("setPhaseNode:Phase-store#%d:next-phase", nAdv), posOf(p, w.Instr), "the new phase is Phase+1, or Start (0) exactly when Phase is the last phase (len(PhaseRounds)-1)")
 		case "StartRound":
-			r.Check(isPn(w.Val, "CurrentRound"), "C38.advance", fmt.Sprintf("setPhaseNode:StartRound-store#%d:current-round", nAdv), posOf(p, w.Instr), "a phase starts at the current round; got "+describe(w.Val))
+			r.Check(isPnV(w.Val, "CurrentRound"), "C38.advance", fmt.Sprintf("setPhaseNode:StartRound-store#%d:current-round", nAdv), posOf(p, w.Instr), "a phase starts at the current round; got "+describe(w.Val))
 		}
 	}
 	r.Floor("C38.advance", "Phase/StartRound stores in setPhaseNode", nAdv, 3)
